@@ -210,11 +210,24 @@ func configText(sc Scenario, root string, servers []string, variant string) stri
 		// valid on its own, but a new field in front moves every field the inputs and the orchestration rely on: the inputs
 		// are not restarted at a reload and keep writing to the old positions, so this must be refused
 		fields = "[front, facility, level, time, host, app, pid, source, extradata, log, kind]"
+	case "renamed":
+		// a field the inputs fill is renamed: whether the loader or the compatibility check refuses it, it must be refused
+		fields = "[facility, level, time, host, app, pid, source, extradata2, log, kind]"
+	}
+	// further documented reload restrictions: schema/maxFields, the inputs section and the orchestration type must not change
+	maxFields, extractLen, orchestration := "14", "20", "  type: byKeySet\n  keys: " + keys + "\n  tag: e2e.$app\n"
+	switch variant {
+	case "maxfields":
+		maxFields = "15"
+	case "inputs":
+		extractLen = "21"
+	case "orchtype":
+		orchestration = "  type: singleton\n  tag: e2e.fixed\n"
 	}
 	var b strings.Builder
-	b.WriteString("anchors: []\nschema:\n  fields: " + fields + "\n  maxFields: 14\n")
-	b.WriteString("inputs:\n  - type: syslog\n    address: 127.0.0.1:0\n    levelMapping: [" + strings.Join(levels, ", ") + "]\n    extractions:\n      - type: extractHead\n        key: log\n        pattern: '\\[*\\] '\n        maxLen: 20\n        destKey: kind\n      - type: drop\n        match:\n          kind: xdrop\n        percentage: 100\n        metricLabel: xfiltered\n")
-	b.WriteString("orchestration:\n  type: byKeySet\n  keys: " + keys + "\n  tag: e2e.$app\n")
+	b.WriteString("anchors: []\nschema:\n  fields: " + fields + "\n  maxFields: " + maxFields + "\n")
+	b.WriteString("inputs:\n  - type: syslog\n    address: 127.0.0.1:0\n    levelMapping: [" + strings.Join(levels, ", ") + "]\n    extractions:\n      - type: extractHead\n        key: log\n        pattern: '\\[*\\] '\n        maxLen: " + extractLen + "\n        destKey: kind\n      - type: drop\n        match:\n          kind: xdrop\n        percentage: 100\n        metricLabel: xfiltered\n")
+	b.WriteString("orchestration:\n" + orchestration)
 	metricKeys := "[source]"
 	if variant == "incompatible" {
 		metricKeys = "[pid]"
